@@ -2,6 +2,7 @@ import GV.Model.JSInt
 import GV.Model.Num64
 import GV.Model.NumScheme
 import GV.Spec.Num
+import GV.Model.F32
 import GV.Proofs.Num
 import GV.Proofs.Num64
 import GV.Proofs.NumBits
@@ -775,5 +776,34 @@ theorem div64_norm_terminates (s : Bool) (y : W64) (hy : Canon s y) (hy0 : ¬ (y
   rw [← this, myv]
   simp only [Nat.sub_self, Int.pow_zero]
   split <;> omega
+
+/-! ### float32: every operation is rounded, whatever the operand shape (abstract `$fround`) -/
+
+section F32
+open GV.F32
+variable {D F : Type}
+
+/-- `f32_nested`: the double computed by the emitted code for ANY float32 expression tree holds exactly the float32 value the Go
+    specification defines (each operation rounded to single precision) — for every operand shape, because a sub-expression operand
+    is itself emitted as `$fround(…)`. Only `$fround ∘ emb = id` on float32 values is used; the IEEE operations stay opaque. -/
+theorem f32_nested (R : Rounding D F) (op : Op → D → D → D) (e : Expr F) : emit R op e = R.emb (evalSpec R op e) := by
+  induction e with
+  | val f => rfl
+  | bin o a b iha ihb => simp only [emit, evalSpec, iha, ihb]
+
+/-- storing / comparing / converting the result (`$fround` again, or reading the double as a float32) gives the specified value -/
+theorem f32_nested_value (R : Rounding D F) (op : Op → D → D → D) (e : Expr F) : R.rnd (emit R op e) = evalSpec R op e := by
+  rw [f32_nested, R.idem]
+
+/-- rounding only the outermost operation is NOT equivalent (so the table obligation `f32_records_fround` is not vacuous): in the
+    toy rounding Int → Int with `emb f = 4 f`, `rnd d = ⌊d / 4⌋` and an operation whose exact result falls between representable
+    values, `(a + b) + c` differs -/
+theorem f32_outer_only_differs :
+    ∃ (R : Rounding Int Int) (op : Op → Int → Int → Int) (e : Expr Int), emitOuterOnly R op e ≠ R.emb (evalSpec R op e) := by
+  refine ⟨⟨fun d => d / 4, fun f => 4 * f, fun f => by omega⟩, fun _ x y => x + y + 3,
+    .bin .add (.bin .add (.val 1) (.val 1)) (.val 1), ?_⟩
+  decide
+
+end F32
 
 end GV.Props.C06
